@@ -117,6 +117,94 @@ class AxiM(cohdl.Entity):
 
 
 
+class Cnt(reg32.Register):
+    data: reg32.MemField[15:0, Null]
+    rd_cnt: reg32.UField[19:16, Null]
+    wr_cnt: reg32.UField[23:20, Null]
+    rd_n: reg32.PushOnNotify.Read
+    wr_n: reg32.PushOnNotify.Write
+
+    def _impl_sequential_(self):
+        if self.rd_n:
+            self.rd_cnt <<= self.rd_cnt.val() + 1
+        if self.wr_n:
+            self.wr_cnt <<= self.wr_cnt.val() + 1
+
+
+class Inner(reg32.RegFile, word_count=2):
+    a: reg32.MemWord[0]
+    b: reg32.MemWord[4]
+
+
+class NRoot(reg32.AddrMap):
+    c: Cnt[0x00]
+    arr: reg32.Array[reg32.MemWord, 0x10:0x18:4]
+    inner: Inner[0x20]
+    inp: reg32.Input[0x30]
+    outp: reg32.Output[0x34]
+
+    def _config_(self, sig_in, sig_out):
+        self.inp._config_(sig_in)
+        self.outp._config_(sig_out)
+
+
+class AxiN(cohdl.Entity):
+    clk = Port.input(Bit)
+    reset = Port.input(Bit)
+    axi_awaddr = Port.input(Unsigned[32])
+    axi_awprot = Port.input(Unsigned[3])
+    axi_awvalid = Port.input(Bit)
+    axi_awready = Port.output(Bit, default=Null)
+    axi_wdata = Port.input(BitVector[32])
+    axi_wstrb = Port.input(BitVector[4])
+    axi_wvalid = Port.input(Bit)
+    axi_wready = Port.output(Bit, default=Null)
+    axi_bresp = Port.output(BitVector[2], default=Null)
+    axi_bvalid = Port.output(Bit, default=Null)
+    axi_bready = Port.input(Bit)
+    axi_araddr = Port.input(Unsigned[32])
+    axi_arprot = Port.input(Unsigned[3])
+    axi_arvalid = Port.input(Bit)
+    axi_arready = Port.output(Bit, default=Null)
+    axi_rdata = Port.output(BitVector[32], default=Null)
+    axi_rresp = Port.output(BitVector[2], default=Null)
+    axi_rvalid = Port.output(Bit, default=Null)
+    axi_rready = Port.input(Bit)
+    i_in = Port.input(BitVector[32])
+    o_out = Port.output(BitVector[32])
+    o_a0 = Port.output(BitVector[32])
+    o_a1 = Port.output(BitVector[32])
+    o_ia = Port.output(BitVector[32])
+    o_ib = Port.output(BitVector[32])
+    o_rd = Port.output(Unsigned[4])
+    o_wr = Port.output(Unsigned[4])
+    o_data = Port.output(BitVector[16])
+
+    def architecture(self):
+        clk = std.Clock(self.clk)
+        reset = std.Reset(self.reset)
+        axi_con = axi.Axi4Light(
+            clk=clk, reset=reset,
+            wraddr=axi.Axi4Light.WrAddr(valid=self.axi_awvalid, ready=self.axi_awready, awaddr=self.axi_awaddr, awprot=self.axi_awprot),
+            wrdata=axi.Axi4Light.WrData(valid=self.axi_wvalid, ready=self.axi_wready, wdata=self.axi_wdata, wstrb=self.axi_wstrb),
+            wrresp=axi.Axi4Light.WrResp(valid=self.axi_bvalid, ready=self.axi_bready, bresp=self.axi_bresp),
+            rdaddr=axi.Axi4Light.RdAddr(valid=self.axi_arvalid, ready=self.axi_arready, araddr=self.axi_araddr, arprot=self.axi_arprot),
+            rddata=axi.Axi4Light.RdData(valid=self.axi_rvalid, ready=self.axi_rready, rdata=self.axi_rdata, rresp=self.axi_rresp),
+        )
+        sig_out = Signal[BitVector[32]](Null)
+        root = NRoot(self.i_in, sig_out)
+        axi_con.connect_addr_map(root)
+        std.concurrent_assign(self.o_out, sig_out)
+        std.concurrent_assign(self.o_a0, root.arr[0].raw)
+        std.concurrent_assign(self.o_a1, root.arr[1].raw)
+        std.concurrent_assign(self.o_ia, root.inner.a.raw)
+        std.concurrent_assign(self.o_ib, root.inner.b.raw)
+        std.concurrent_assign(self.o_rd, root.c.rd_cnt.val())
+        std.concurrent_assign(self.o_wr, root.c.wr_cnt.val())
+        std.concurrent_assign(self.o_data, root.c.data.val())
+
+
 if __name__ == "__main__":
     print(std.VhdlCompiler.to_string(AxiW))
     print(std.VhdlCompiler.to_string(AxiM))
+    print(std.VhdlCompiler.to_string(AxiN))
